@@ -17,7 +17,7 @@ fn last_changed_ref(d: Durability, revs: [usize; 3]) -> usize {
     }
 }
 
-// @verif prop=C01 obl=O2 tier=quick bounds="every runtime state with rev[LOW] >= rev[MEDIUM] >= rev[HIGH] >= R1 (< 2^40); every verified_at <= now; every durability; changed_at <= verified_at; query revision <= now; origin Derived/DerivedUntracked/Assigned without edges; final and provisional flag"
+// @verif prop=C01,C02,C03 obl=O2 tier=quick bounds="every runtime state with rev[LOW] >= rev[MEDIUM] >= rev[HIGH] >= R1 (< 2^40); every verified_at <= now; every durability; changed_at <= verified_at; query revision <= now; origin Derived/DerivedUntracked/Assigned without edges; final and provisional flag"
 // @+ encodes="MemoHeader::shallow_verify_memo, MemoHeader::shallow_verify_memo_cold, MemoHeader::maybe_changed_after_hot, MemoHeader::update_shallow, MemoHeader::mark_as_verified, MemoHeader::mark_outputs_as_verified, MemoHeader::may_be_provisional, Zalsa::current_revision, Zalsa::last_changed_revision, Runtime::last_changed_revision, VerifyResult::unchanged_for_memo"
 /// C01-O2 (soundness): shallow verification says yes only if the memo was verified in this revision or
 /// no input of its durability changed since it was verified; the hot path says Unchanged only for a
@@ -164,7 +164,7 @@ fn history_then_shallow(n: usize, d: Durability, untracked: bool) {
     std::mem::forget(zalsa);
 }
 
-// @verif prop=C02,C03 obl=O3 tier=quick bounds="arbitrary INV start state; every verified_at <= now; memo durability symbolic; exactly 2 later revisions, each with an optional write of symbolic durability LOW/MEDIUM/HIGH"
+// @verif prop=C02,C03,C04 obl=O3 tier=quick bounds="arbitrary INV start state; every verified_at <= now; memo durability symbolic; exactly 2 later revisions, each with an optional write of symbolic durability LOW/MEDIUM/HIGH"
 // @+ encodes="Runtime::new_revision, Runtime::report_tracked_write, MemoHeader::shallow_verify_memo, MemoHeader::shallow_verify_memo_cold, Zalsa::last_changed_revision"
 /// C02-O3: over every 2-revision write history, a write with durability >= the memo's durability after it
 /// was verified always defeats the durability shortcut (and, conversely for C03, its absence never does).
@@ -175,7 +175,7 @@ fn c02_o3_history_2() {
     history_then_shallow(2, any_durability(), false);
 }
 
-// @verif prop=C02,C03 obl=O3 tier=thorough bounds="as c02_o3_history_2 with exactly 3 later revisions"
+// @verif prop=C02,C03,C04 obl=O3 tier=thorough bounds="as c02_o3_history_2 with exactly 3 later revisions"
 // @+ encodes="Runtime::new_revision, Runtime::report_tracked_write, MemoHeader::shallow_verify_memo, MemoHeader::shallow_verify_memo_cold"
 /// C02-O3: the same over every 3-revision write history.
 #[kani::proof]
@@ -185,7 +185,7 @@ fn c02_o3_history_3() {
     history_then_shallow(3, any_durability(), false);
 }
 
-// @verif prop=C02,C03 obl=O3 tier=quick bounds="as c02_o3_history_2 with exactly 1 later revision"
+// @verif prop=C02,C03,C04 obl=O3 tier=quick bounds="as c02_o3_history_2 with exactly 1 later revision"
 // @+ encodes="Runtime::new_revision, Runtime::report_tracked_write, MemoHeader::shallow_verify_memo"
 /// C02-O3: one later revision.
 #[kani::proof]
@@ -195,7 +195,7 @@ fn c02_o3_history_1() {
     history_then_shallow(1, any_durability(), false);
 }
 
-// @verif prop=C04 obl=O2 tier=quick bounds="untracked memo (durability LOW, origin DerivedUntracked); 1 or 2 later revisions with optional writes of any durability; arbitrary INV start state"
+// @verif prop=C04,C02 obl=O2 tier=quick bounds="untracked memo (durability LOW, origin DerivedUntracked); 1 or 2 later revisions with optional writes of any durability; arbitrary INV start state"
 // @+ encodes="Runtime::new_revision, Runtime::report_tracked_write, MemoHeader::shallow_verify_memo, MemoHeader::shallow_verify_memo_cold"
 /// C04-O2: a memo that recorded an untracked read (LOW durability) is never shallow-verified in a later revision.
 #[kani::proof]
